@@ -69,12 +69,13 @@ def heading (line : Str) : Option HeadingMatch :=
       else none
     | [] => none
 
-/-! ### Paragraph.setext_pattern  ` {0,3}(=|-)+ *$` -/
+/-! ### Paragraph.setext_pattern  ` {0,3}(=+|-+) *$` -/
 def setext (line : Str) : Bool :=
   match upTo3Spaces line with
   | none => false
   | some (_, r) =>
-    let (u, r1) := span (fun c => c == '=' || c == '-') r
+    -- a run of `=` or a run of `-`, not a mixture (the pinned pattern `(=|-)+` accepted `=-`; repaired in /repo)
+    let (u, r1) := if r.head? == some '=' then span (· == '=') r else span (· == '-') r
     if u.isEmpty then false else
     let (_, r2) := span (· == ' ') r1
     atEnd r2
